@@ -2,6 +2,7 @@
 package main
 
 import (
+	"runtime/pprof"
 	"encoding/json"
 	"flag"
 	"fmt"
@@ -20,7 +21,13 @@ func main() {
 	verif := flag.String("verif", "/verif", "verification directory (evidence, known findings)")
 	explain := flag.String("explain", "", "print a replay file")
 	dump := flag.String("dump", "", "debug: routes|funcs|states:<pkgrel>:<func>")
+	cpuprof := flag.String("cpuprofile", "", "write cpu profile")
 	flag.Parse()
+	if *cpuprof != "" {
+		f, _ := os.Create(*cpuprof)
+		pprof.StartCPUProfile(f)
+		defer pprof.StopCPUProfile()
+	}
 	if *explain != "" {
 		b, err := os.ReadFile(*explain)
 		if err != nil {
@@ -101,6 +108,7 @@ func main() {
 			exit = 1
 		}
 	}
+	pprof.StopCPUProfile()
 	os.Exit(exit)
 }
 
